@@ -20,6 +20,8 @@ Json FaultSpec::to_json() const
     {
         j.set("method", vfs_method_name(method));
         j.set("role", file_role_name(role));
+        if (persist)
+            j.set("persist", persist);
     }
     if (kind == FK_LOCK)
         j.set("role", file_role_name(role));
@@ -38,6 +40,7 @@ FaultSpec FaultSpec::from_json(const Json& j)
     {
         f.method = vfs_method_from_name(j.gets("method"));
         f.role = file_role_from_name(j.gets("role"));
+        f.persist = (int)j.geti("persist", 0);
         if (f.method < 0 || f.role < 0)
             throw std::runtime_error("bad F3 fault in plan");
     }
@@ -60,6 +63,13 @@ Json Step::to_json() const
     j.set("size", size);
     if (fault.kind != FK_NONE)
         j.set("fault", fault.to_json());
+    if (!pre.empty())
+    {
+        Json arr = Json::array();
+        for (auto& f : pre)
+            arr.push(f.to_json());
+        j.set("pre", arr);
+    }
     return j;
 }
 Step Step::from_json(const Json& j)
@@ -74,6 +84,9 @@ Step Step::from_json(const Json& j)
     s.size = (int)j.geti("size", 1);
     if (auto* f = j.find("fault"))
         s.fault = FaultSpec::from_json(*f);
+    if (auto* p = j.find("pre"))
+        for (auto& x : p->a)
+            s.pre.push_back(FaultSpec::from_json(x));
     return s;
 }
 
@@ -338,6 +351,7 @@ void World::begin_call(const FaultSpec& f)
             g_disk.fault.role = f.role;
             g_disk.fault.ordinal = (int)f.pos;
             g_disk.fault.code = f.code ? f.code : SQLITE_IOERR;
+            g_disk.fault.persist = f.persist;
             break;
         case FK_MALLOC:
             g_taps.f4.armed = true;
@@ -366,7 +380,10 @@ void World::end_call(Outcome& o)
     if (g_taps.f2.fired)
         fault_fired["F2"]++;
     if (g_disk.fault.fired)
-        fault_fired["F3"]++;
+        fault_fired[g_disk.fault.persist ? "F3-persistent" : "F3"]++;
+    if (g_disk.fault.refired)
+        probes.hit("persistent_fault_refired", g_disk.fault.refired);
+    g_disk.quota_bytes = -1;
     if (g_taps.f4.fired)
         fault_fired["F4"]++;
     o.step_errors = g_taps.step_errors;
